@@ -972,6 +972,10 @@ class Interp:
             if more is not None:
                 st.heap[cur[1]].items.extend(more)       # list += iterable extends the list in place (aliases see it)
                 return self._flush(st, ctx, node)
+        if isinstance(node.op, ast.Add) and cur[0] == "obj" and st.heap[cur[1]].name == "bytearray":
+            # bytearray += bytes extends the buffer in place (aliases see it)
+            self.lib.call_method(self, cur, "extend", [rhs], {}, st, ctx, node, False)
+            return self._flush(st, ctx, node)
         v = self.binop(node.op, cur, rhs, st, ctx, node)
         self.assign(node.target, v, st, ctx)
         return self._flush(st, ctx, node)
